@@ -1,7 +1,8 @@
 SPECIFICATION Spec
 CONSTANTS
   Values = {1, 2, 3, 4}
-  Gaps = {1, 2}
+  Gaps = {0, 1}
   MaxLen = 4
-INVARIANTS TypeOK RunIsRef PeakToTrough Recovery OnePerPeak NoneIffMonotone MaxIsLargest ClassicMDD
+INVARIANTS TypeOK RunIsRef ReadIsCurrent PeakToTrough Recovery OnePerPeak NoneIffMonotone MaxIsLargest ClassicMDD
+PROPERTIES ReadingIsPure
 CHECK_DEADLOCK FALSE
